@@ -29,7 +29,13 @@ for f in j["findings"]:
         if "line" in f:
             f["line"] = f["line"].replace(c, ren[c])
 json.dump(j, open(p, "w"), indent=1)
-for n in glob.glob("/verif/notes/*.md"):
+MANUAL = {"10ba83d": "2c9993b", "b68d35c": "0c4cc90"}  # duplicates of a fix that another package had already landed
+for f in j["findings"]:
+    c = f.get("commit")
+    if c in MANUAL:
+        f["commit"] = MANUAL[c]; f["line"] = f.get("line", "").replace(c, MANUAL[c]); ren[c] = MANUAL[c]
+json.dump(j, open(p, "w"), indent=1)
+for n in glob.glob("/verif/notes/*.md") + glob.glob("/verif/claims/*.json") + ["/verif/hooks.json"]:
     s = open(n).read(); t = s
     for a, b in ren.items():
         t = t.replace(a, b)
